@@ -108,7 +108,66 @@ pub fn digest_scn<S: Scheme>(c: &Scn, tier: Tier) -> String {
     hex(&h.finalize())
 }
 
+/// Code-based schemes: the decision on one crafted proof joins the digest. The Fiat-Shamir positions are
+/// drawn with replacement; where a position occurs twice, the LATER occurrence's column is altered by a
+/// vector orthogonal to the verifier's row combination vectors (so only its authentication can refuse
+/// it). A verifier that authenticates every opened column refuses whatever the schedule; one that
+/// authenticates each distinct position once, first come first served, decides by thread timing.
+pub fn crafted_lin<S: crate::lincode::Lin>(c: &Scn, tier: Tier) -> String {
+    use crate::lincode::{self, MProof};
+    use ark_crypto_primitives::sponge::CryptographicSponge;
+    use ark_ff::Zero;
+    use ark_poly_commit::PolynomialCommitment;
+    let Ok(sess) = Session::<S>::build(c, tier) else { return "-".into() };
+    let g = &sess.groups[0];
+    let i = g.polys[0];
+    let Out::Ok(proof) = sess.open_idx(&[i], &g.point, &mut sess.sponge(), sess.seeds[1]) else { return "-".into() };
+    let Ok(mut mp): Result<Vec<MProof>, _> = lincode::proofs_mirror::<S>(&proof) else { return "-".into() };
+    let Ok((n_rows, n_cols, _rows, ext)) = lincode::ref_matrices::<S>(&sess.keys.ck, sess.polys[i].polynomial()) else { return "-".into() };
+    let pos: Vec<usize> = mp[0].opening.paths.iter().map(|p| p.leaf_index).collect();
+    let Some(j2) = (1..pos.len()).find(|j| pos[..*j].contains(&pos[*j])) else { return "no-repeated-position".into() };
+    let cols = lincode::columns_of(&ext);
+    let leaves: Vec<Vec<u8>> = cols.iter().map(|c| lincode::col_hash(c)).collect();
+    let root = lincode::ref_root(&leaves);
+    let mut sp = sess.sponge();
+    sp.absorb(&ser(&root));
+    let wf = S::wf(&sess.keys.ck);
+    let r: Vec<crate::types::Fr> = if wf { sp.squeeze_field_elements(n_rows) } else { vec![] };
+    let (_a, b) = lincode::tensor::<S>(&g.point, n_cols, n_rows);
+    let mut delta = vec![crate::types::Fr::zero(); n_rows];
+    if wf {
+        if n_rows < 3 {
+            return "too-few-rows".into();
+        }
+        delta[0] = b[1] * r[2] - b[2] * r[1];
+        delta[1] = b[2] * r[0] - b[0] * r[2];
+        delta[2] = b[0] * r[1] - b[1] * r[0];
+    } else {
+        if n_rows < 2 {
+            return "too-few-rows".into();
+        }
+        delta[0] = b[1];
+        delta[1] = -b[0];
+    }
+    if delta.iter().all(|d| d.is_zero()) {
+        return "degenerate".into();
+    }
+    for (x, d) in mp[0].opening.columns[j2].iter_mut().zip(&delta) {
+        *x += *d;
+    }
+    let Ok(pr) = lincode::proofs_unmirror::<S>(&mp) else { return "-".into() };
+    let v = sess.true_value(i, &g.point);
+    let r = crate::util::guard(|| S::PC::check(&sess.keys.vk, [&sess.comms[i]], &g.point, [v], &pr, &mut sess.sponge(), None));
+    format!("altered-later-occurrence:{}", if accepted(&r) { "accepted" } else { "refused" })
+}
+
 pub fn digest_by_name(scheme: &str, c: &Scn, tier: Tier) -> Option<String> {
+    match scheme {
+        "uligero" => return Some(format!("{}+{}", digest_scn::<ULigero>(c, tier), crafted_lin::<ULigero>(c, tier))),
+        "mligero" => return Some(format!("{}+{}", digest_scn::<MLigero>(c, tier), crafted_lin::<MLigero>(c, tier))),
+        "brakedown" => return Some(format!("{}+{}", digest_scn::<Brakedown>(c, tier), crafted_lin::<Brakedown>(c, tier))),
+        _ => {}
+    }
     Some(match scheme {
         "marlin" => digest_scn::<Marlin>(c, tier),
         "sonic" => digest_scn::<Sonic>(c, tier),
